@@ -106,6 +106,13 @@ def rule_R1c(ctx, rep, config="c-lib"):
                 if g.name in R and any(i.op == "load" and resolve_addr(g, i.ops[0]).last_field() == fld for i in g.all_insts()):
                     others.append(g.name)
             bad = None
+            # accesses in the resetting function itself must come after the reset (a reset at the end is skipped when the parse fails in between)
+            own = [t for (g, t) in sts if g is f and t is not s] + \
+                  [i for i in f.all_insts() if i.op == "load" and resolve_addr(f, i.ops[0]).last_field() == fld]
+            late = [t for t in own if not f.inst_dominates(s, t)]
+            if late:
+                why = "the reset in %s does not precede the accesses in the same function (%s): a parse that fails in between skips it" % (f.name, late[0].where())
+                continue
             for c in yp.calls():
                 if c is c0[0]:
                     continue
